@@ -29,7 +29,7 @@
      body      tx_body (what build() puts into the TransactionBody, inputs resolved to their values), body_of
      spec      ledger_balanced (Prop), ledger_balancedb (its executable decision used by the judge),
                sum_coin / sum_qty / mint_pos / mint_neg
-     wf        state_wf (every value of the state is value_wf, mint keys sorted, quantities in the Int range)
+     wf        state_wf (every value of the state is value_wf, mint keys sorted, quantities in -(2^64-1) .. 2^64-1)
      known     known_mint_min (a mint quantity equal to -2^64: Int::as_negative truncates it to 0)
 *)
 From CSL Require Import Base.Prelude Base.U64 Num.Value Deposits.Deposits.
@@ -168,16 +168,20 @@ Fixpoint wd_insert (k c : N) (m : list (N * N)) : list (N * N) :=
 Definition int_min : Z := (- two64Z)%Z.
 Definition int_max : Z := (two64Z - 1)%Z.
 
+(* MIN_MINT_AMOUNT (mint_builder.rs, since /repo 0175f0b): the largest burn is 2^64-1 *)
+Definition mint_amount_min : Z := (- (two64Z - 1))%Z.
+
 (* MintBuilder::update_mint_value for a native-script witness of the right kind *)
 Definition mint_update (overwrite : bool) (p n : bytes) (amt : Z) (m : mint_map) : result mint_map :=
   if (amt =? 0)%Z then Err
+  else if (amt <? mint_amount_min)%Z then Err
   else
     let a := match am_get bytes_cmp p m with Some a => a | None => [] end in
     let cur := match am_get name_cmp n a with Some c => c | None => 0%Z end in
     if overwrite then Ok (am_insert bytes_cmp p (am_insert name_cmp n amt a) m)
     else
       let s := (cur + amt)%Z in
-      if ((int_min <=? s) && (s <=? int_max))%Z
+      if ((mint_amount_min <=? s) && (s <=? int_max))%Z
       then Ok (am_insert bytes_cmp p (am_insert name_cmp n s a) m)
       else Err.
 
@@ -351,7 +355,7 @@ Definition ledger_balancedb (pool_deposit key_deposit : N) (b : tx_body) : bool 
 (* Well-formedness of a state: what BTreeMap, u64 and the Int range guarantee *)
 
 Definition mint_assets_wfb (a : mint_assets) : bool :=
-  am_sorted name_cmp a && forallb (fun nq : bytes * Z => ((int_min <=? snd nq) && (snd nq <=? int_max))%Z) a.
+  am_sorted name_cmp a && forallb (fun nq : bytes * Z => ((mint_amount_min <=? snd nq) && (snd nq <=? int_max))%Z) a.
 Definition mint_wfb (m : mint_map) : bool :=
   am_sorted bytes_cmp m && forallb (fun e : bytes * mint_assets => mint_assets_wfb (snd e)) m.
 
@@ -361,8 +365,9 @@ Definition state_wfb (s : state) : bool :=
   && match s_mint s with Some m => mint_wfb m | None => true end.
 Definition state_wf (s : state) : Prop := state_wfb s = true.
 
-(* known class: a mint quantity of exactly -2^64 (the lower end of the Int range): Int::as_negative
-   computes (-x) as u64 = 0, so the builder counts it as burning nothing *)
+(* class of the finding C05-mint-min-int (fixed in /repo 0175f0b; MintBuilder now rejects it, and mint_wfb excludes
+   it): a mint quantity of exactly -2^64 (the lower end of the Int range): Int::as_negative computes
+   (-x) as u64 = 0, so the builder counted it as burning nothing *)
 Definition known_mint_min_map (m : mint_map) : bool :=
   existsb (fun e : bytes * mint_assets => existsb (fun nq : bytes * Z => (snd nq =? int_min)%Z) (snd e)) m.
 Definition known_mint_min (s : state) : bool :=
